@@ -173,3 +173,37 @@ Lemma fsevents_nonrec_child_dir_dropped :
   queue_events (fun _ => None) (fun _ => Node [] []) false r_ []
                [frender r_ ([na], 5, N.lor F_CREATED F_IS_DIR)] = Some ([Modified KDir r_], [5], false).
 Proof. reflexivity. Qed.
+
+(* ---------------------------------------------------------------- the created-and-removed branch and _fs_view *)
+Lemma mem_discard_self i v : mem i (discard i v) = false.
+Proof.
+  unfold mem, discard. apply not_true_is_false. intros H. apply existsb_exists in H as (x & Hx & E).
+  apply filter_In in Hx as [_ Hx]. apply N.eqb_eq in E. subst x. rewrite N.eqb_refl in Hx. discriminate.
+Qed.
+
+(* An event flagged both created and removed (an item gone again - possibly an item whose creation
+   was processed in an EARLIER batch and whose removal repeats the sticky ItemCreated flag) leaves its
+   inode out of the _fs_view: the branch's discard is what forgets an inode that entered the view
+   earlier, so that a later item with the recycled inode number is reported as created. *)
+Theorem created_removed_forgets stat_ino walk root view e rest :
+  has e F_CREATED = true -> has e F_REMOVED = true ->
+  mem (f_ino e) (snd (fst (fst (process stat_ino walk root view e rest)))) = false.
+Proof.
+  intros Hc Hr. unfold process. rewrite Hc, Hr. cbn [andb].
+  destruct (has e F_ROOT_CHANGED); cbn [fst snd]; [reflexivity | apply mem_discard_self].
+Qed.
+
+(* create a | write a, unlink a with the sticky created flag | create c with a's recycled inode 7 *)
+Lemma sticky_created_inode_reuse :
+  let a := abspath r_ [na] in let c := abspath r_ [nc] in
+  let fl l := fold_left N.lor l 0%N in
+  let qe := queue_events (fun _ => None) (fun _ => Node [] []) true r_ in
+  qe [] [FNative a 7 (fl [F_CREATED; F_IS_FILE])]
+    = Some ([Created KFile a false; Modified KDir r_], [7], false) /\
+  qe [7] [FNative a 7 (fl [F_CREATED; F_MODIFIED; F_REMOVED; F_IS_FILE])]
+    = Some ([Modified KFile a; Deleted KFile a; Modified KDir r_], [], false) /\
+  qe [] [FNative c 7 (fl [F_CREATED; F_IS_FILE])]
+    = Some ([Created KFile c false; Modified KDir r_], [7], false) /\
+  (* had the inode stayed in the view, the creation of c would not be queued *)
+  qe [7] [FNative c 7 (fl [F_CREATED; F_IS_FILE])] = Some ([], [7], false).
+Proof. vm_compute. repeat split. Qed.
